@@ -88,3 +88,109 @@ Proof.
     inversion Ht; subst. destruct IH as [I1 I2]. split; [constructor; assumption|cbn; now rewrite I2]. }
   destruct E as [E1 E2]. rewrite E2. auto.
 Qed.
+
+(* ---- the converse for anchor-free patterns: a string of the language that occurs at position i is among the successes the engine lists from i ---- *)
+Section C.
+Variable s : list chr.
+Definition occ (t : list chr) (i : nat) : Prop := forall k x, nth_error t k = Some x -> nth_error s (i + k) = Some x.
+Lemma occ_app t1 t2 i : occ (t1 ++ t2) i -> occ t1 i /\ occ t2 (i + length t1).
+Proof.
+  intro H. split; intros k x Hk.
+  - apply H. rewrite nth_error_app1; [exact Hk|]. apply nth_error_Some. congruence.
+  - replace (i + length t1 + k) with (i + (length t1 + k)) by lia. apply H. rewrite nth_error_app2 by lia. now replace (length t1 + k - length t1) with k by lia.
+Qed.
+Lemma nth_error_skipn {A} : forall i k (l : list A), nth_error (skipn i l) k = nth_error l (i + k).
+Proof. induction i as [|i IH]; intros k [|x l]; cbn [skipn Nat.add nth_error]; try reflexivity; [now destruct k|apply IH]. Qed.
+Lemma nth_error_firstn_some {A} : forall n k (l : list A) x, nth_error (firstn n l) k = Some x -> nth_error l k = Some x.
+Proof. induction n as [|n IH]; intros k [|y l] x H; cbn [firstn nth_error] in *; try (destruct k; discriminate); destruct k; cbn [nth_error] in *; [exact H|now apply IH]. Qed.
+Lemma occ_sub i j : occ (sub s i j) i.
+Proof. intros k x Hk. unfold sub in Hk. apply nth_error_firstn_some in Hk. now rewrite nth_error_skipn in Hk. Qed.
+
+Lemma occ_len t i : occ t i -> t <> [] -> i + length t <= length s.
+Proof.
+  intros O Ne. destruct (rev t) as [|x r] eqn:Er; [apply (f_equal (@rev _)) in Er; rewrite rev_involutive in Er; cbn in Er; contradiction|].
+  assert (Et : t = rev r ++ [x]) by (rewrite <- (rev_involutive t), Er; reflexivity).
+  assert (H : nth_error t (length (rev r)) = Some x) by (rewrite Et, nth_error_app2, Nat.sub_diag by lia; reflexivity).
+  apply O in H. assert (i + length (rev r) < length s) by (apply nth_error_Some; congruence). rewrite Et, app_length. cbn [length]. lia.
+Qed.
+Lemma optc_has_stop g a n hi i c : In (i, c) (optc s g a n hi i c).
+Proof. destruct n as [|n]; cbn [optc]; [now left|]. destruct hi as [[|h]|]; [now left| |]; cbv zeta; destruct g; try (now left); apply in_or_app; right; now left. Qed.
+
+Lemma optc_complete g a (IHa : forall t i c, lang a t -> occ t i -> exists c', In (i + length t, c') (ms s a i c)) :
+  forall n hi ts i c, Forall (lang a) ts -> Forall (fun t => t <> []) ts -> length ts <= n -> (forall h, hi = Some h -> length ts <= h) -> occ (concat ts) i ->
+  exists c', In (i + length (concat ts), c') (optc s g a n hi i c).
+Proof.
+  induction n as [|n IH]; intros hi ts i c F Ne Ln Bh O.
+  - destruct ts; [|cbn in Ln; lia]. cbn [concat length]. rewrite Nat.add_0_r. exists c. apply optc_has_stop.
+  - destruct ts as [|t1 ts]; [cbn [concat length]; rewrite Nat.add_0_r; exists c; apply optc_has_stop|].
+    inversion F as [|? ? F1 F']; subst. inversion Ne as [|? ? N1 Ne']; subst. cbn [concat] in O |- *. apply occ_app in O as [O1 O2].
+    destruct (IHa t1 i c F1 O1) as (c1 & H1).
+    assert (Hhi : hi <> Some 0). { intros ->. specialize (Bh 0 eq_refl). cbn in Bh. lia. }
+    destruct (IH (option_map pred hi) ts (i + length t1) c1 F' Ne' ltac:(cbn in Ln; lia)) as (c2 & H2); [|exact O2|].
+    { intros h Eh. destruct hi as [[|h0]|]; cbn in Eh; try discriminate; [congruence|]. injection Eh as <-. specialize (Bh (S h0) eq_refl). cbn in Bh. lia. }
+    exists c2. rewrite app_length, Nat.add_assoc. cbn [optc].
+    assert (Hmore : In (i + length t1 + length (concat ts), c2)
+              (flat_map (fun p => if Nat.eqb (fst p) i then [] else optc s g a n (option_map pred hi) (fst p) (snd p)) (ms s a i c))).
+    { apply in_flat_map. exists (i + length t1, c1). split; [exact H1|]. cbn [fst snd].
+      destruct (Nat.eqb_spec (i + length t1) i) as [E|_]; [destruct t1; [contradiction|cbn in E; lia]|exact H2]. }
+    destruct hi as [[|h]|]; [congruence| |]; cbv zeta; destruct g; try (apply in_or_app; left; exact Hmore); right; exact Hmore.
+Qed.
+
+Lemma concat_nonempty (ts : list (list chr)) : concat (filter (fun t => negb (match t with [] => true | _ => false end)) ts) = concat ts.
+Proof. induction ts as [|t ts IH]; cbn [filter concat]; [reflexivity|]. destruct t; cbn [negb concat app]; [exact IH|now rewrite IH]. Qed.
+
+Lemma mandc_complete g a (IHa : forall t i c, lang a t -> occ t i -> exists c', In (i + length t, c') (ms s a i c)) :
+  forall lo hi ts i c, Forall (lang a) ts -> lo <= length ts -> (forall h, hi = Some h -> length ts <= h) -> occ (concat ts) i ->
+  exists c', In (i + length (concat ts), c') (mandc s g a lo hi i c).
+Proof.
+  induction lo as [|lo IH]; intros hi ts i c F Ll Bh O; cbn [mandc].
+  - (* the optional part: empty iterations dropped *)
+    set (ts' := filter (fun t => negb (match t with [] => true | _ => false end)) ts).
+    assert (Ec : concat ts' = concat ts) by apply concat_nonempty.
+    assert (F' : Forall (lang a) ts'). { apply Forall_forall. intros t Ht. apply filter_In in Ht as [Ht _]. rewrite Forall_forall in F. now apply F. }
+    assert (Ne : Forall (fun t => t <> []) ts'). { apply Forall_forall. intros t Ht. apply filter_In in Ht as [_ Ht]. destruct t; [discriminate|discriminate]. }
+    assert (Lts : length ts' <= length ts). { unfold ts'. clear. induction ts as [|t ts IHt]; cbn [filter length]; [lia|]. destruct (negb _); cbn [length]; lia. }
+    assert (Lc : length ts' <= length (concat ts')). { clear - Ne. induction Ne as [|t0 ts0 Ht _ IHn]; cbn [concat length]; [lia|]. rewrite app_length. destruct t0; [contradiction|cbn [length]; lia]. }
+    rewrite <- Ec in O |- *.
+    assert (Hlen : length ts' <= S (length s)).
+    { destruct ts' as [|t0 ts0] eqn:Ets; [cbn; lia|]. assert (Hne : concat (t0 :: ts0) <> []). { inversion Ne; subst. cbn [concat]. destruct t0; [contradiction|discriminate]. }
+      pose proof (occ_len _ _ O Hne). lia. }
+    apply (optc_complete g a IHa (S (length s)) hi ts' i c F' Ne); [exact Hlen| |exact O].
+    intros h Eh. specialize (Bh h Eh). lia.
+  - destruct ts as [|t1 ts]; [cbn in Ll; lia|].
+    inversion F as [|? ? F1 F']; subst. cbn [concat] in O |- *. apply occ_app in O as [O1 O2]. rewrite app_length.
+    destruct (IHa t1 i c F1 O1) as (c1 & H1).
+    destruct (IH (option_map pred hi) ts (i + length t1) c1 F' ltac:(cbn in Ll; lia)) as (c2 & H2); [|exact O2|].
+    { intros h Eh. destruct hi as [[|h0]|]; cbn in Eh; try discriminate.
+      - specialize (Bh 0 eq_refl). cbn in Bh. lia.
+      - injection Eh as <-. specialize (Bh (S h0) eq_refl). cbn in Bh. lia. }
+    exists c2. rewrite Nat.add_assoc. apply in_flat_map. exists (i + length t1, c1). split; [exact H1|exact H2].
+Qed.
+
+Fixpoint wfr (r : re) : bool :=
+  match r with
+  | Seq a b | Alt a b => wfr a && wfr b
+  | Rep _ a lo hi => wfr a && match hi with Some h => Nat.leb lo h | None => true end
+  | Grp _ a | Look _ _ _ a => wfr a
+  | _ => true
+  end.
+Theorem lang_ms : forall r, pure r = true -> wfr r = true -> forall t i c, lang r t -> occ t i -> exists c', In (i + length t, c') (ms s r i c).
+Proof.
+  induction r as [| cs | a IHa b IHb | a IHa b IHb | g a IHa lo hi | | | | ahead neg w a IHa | n a IHa]; intros P W t i c L O; cbn [pure] in P; cbn [wfr] in W; try discriminate.
+  - inversion L; subst. cbn [length ms]. rewrite Nat.add_0_r. exists c. now left.
+  - inversion L; subst. cbn [length ms].
+    assert (E : nth_error s i = Some x) by (specialize (O 0 x eq_refl); now rewrite Nat.add_0_r in O).
+    rewrite E. match goal with H : in_cset x cs = true |- _ => rewrite H end. exists c. left. f_equal. lia.
+  - apply andb_true_iff in P as [Pa Pb]. apply andb_true_iff in W as [Wa Wb]. inversion L; subst. apply occ_app in O as [O1 O2]. rewrite app_length.
+    destruct (IHa Pa Wa t1 i c ltac:(assumption) O1) as (c1 & Hin1).
+    destruct (IHb Pb Wb t2 (i + length t1) c1 ltac:(assumption) O2) as (c2 & Hin2).
+    exists c2. rewrite Nat.add_assoc. cbn [ms]. apply in_flat_map. exists (i + length t1, c1). split; [exact Hin1|exact Hin2].
+  - apply andb_true_iff in P as [Pa Pb]. apply andb_true_iff in W as [Wa Wb]. inversion L; subst.
+    + destruct (IHa Pa Wa t i c ltac:(assumption) O) as (c1 & Hin1). exists c1. cbn [ms]. apply in_or_app. left. exact Hin1.
+    + destruct (IHb Pb Wb t i c ltac:(assumption) O) as (c1 & Hin1). exists c1. cbn [ms]. apply in_or_app. right. exact Hin1.
+  - apply andb_true_iff in W as [Wa Wh]. inversion L as [| | | | |g' a' lo' hi' ts F Ll Bh|]; subst. rewrite ms_rep.
+    apply (mandc_complete g a (IHa P Wa)); try assumption.
+    intros h Eh. apply Bh; [exact Eh|]. subst hi. now apply Nat.leb_le.
+  - inversion L; subst. destruct (IHa P W t i c ltac:(assumption) O) as (c1 & Hin1). eexists. cbn [ms]. apply in_map_iff. exists (i + length t, c1). split; [reflexivity|exact Hin1].
+Qed.
+End C.
